@@ -93,6 +93,8 @@ type Spec struct {
 	General          []uint64 `json:"general"`       // per entity general balance
 	UserBalance      []uint64 `json:"user_balance"`  // per user
 	CommonPool       uint64   `json:"common_pool"`
+	LastBlockFees    uint64   `json:"last_block_fees"`
+	GovDeposits      uint64   `json:"governance_deposits"`
 	ThresholdEntity  uint64   `json:"threshold_entity"`
 	ThresholdNode    uint64   `json:"threshold_node"`
 	FeeWeights       [3]uint64 `json:"fee_weights"`
@@ -306,12 +308,14 @@ func BuildGenesis(spec *Spec) (*World, error) {
 		TokenSymbol:          "VRF",
 		TokenValueExponent:   9,
 		CommonPool:           q(spec.CommonPool),
+		LastBlockFees:        q(spec.LastBlockFees),
 		Ledger:               map[staking.Address]*staking.Account{},
 		Delegations:          map[staking.Address]map[staking.Address]*staking.Delegation{},
 		DebondingDelegations: map[staking.Address]map[staking.Address][]*staking.DebondingDelegation{},
 	}
 	total := new(quantity.Quantity)
 	_ = total.Add(&st.CommonPool)
+	_ = total.Add(&st.LastBlockFees)
 	acct := func(a staking.Address) *staking.Account {
 		if st.Ledger[a] == nil {
 			st.Ledger[a] = &staking.Account{}
